@@ -167,3 +167,138 @@ package filesystem
 //@   ensures layout: len(c) == 9 + len(r.path) + 2 + len(context)
 //@   ensures binds-path: forall(i, 0, len(r.path), c[9 + i] == r.path[i])
 //@   ensures binds-context: forall(i, 0, len(context), c[9 + len(r.path) + 2 + i] == context[i])
+
+// ---- Export / import of key rings (C18) --------------------------------------------------------------------------
+// The bundle is the notary's signature over a container whose only payload is the output of the access-key encryptor
+// applied to the serialized rings: serialized (clear) key material never reaches the result.
+//@ func (s *KeyStore) encryptAndSignKeyRings(rings []asn1.KeyRing, cryptosuite *crypto.KeyStoreSuite) (out []byte, err error)
+//@   props C18
+//@   safety
+//@   ensures bundle-is-signed-container: err == nil ==> sameslice(out, ret(Notary.Sign)[0]) && ret(Notary.Sign)[1] == nil && ret(KeyEncryptor.Encrypt)[1] == nil
+//@   ensures whole-or-nothing: err != nil ==> out == nil
+//@   at call EncryptedKeys.Marshal : assert sameslice(recv.KeyRings, rings)
+//@   at call KeyEncryptor.Encrypt : assert recv == cryptosuite.KeyEncryptor && sameslice(arg[1], ret(EncryptedKeys.Marshal)[0]) && ret(EncryptedKeys.Marshal)[1] == nil
+//@   at call signature.NewNotary : assert sameslice(arg[0], cryptosuite.SignatureAlgorithms)
+//@   at call Notary.Sign : assert recv == ret(signature.NewNotary)[0] && typeis(arg[0].Payload.Data, []byte) && sameslice(unbox(arg[0].Payload.Data, []byte), ret(KeyEncryptor.Encrypt)[0]) && arg[0].Payload.ContentType == asn1.TypeEncryptedKeys && arg[0].Payload.Version == asn1.KeyRingVersion2 && sameslice(arg[1], exportKeyContext)
+//@   at call utils.ZeroizeBytes : assert exiting && sameslice(arg[0], ret(EncryptedKeys.Marshal)[0])
+
+// Nothing is decrypted, and no ring is returned, unless the notary verified the bundle under the export context and
+// the container is an encrypted-keys container of the supported version.
+//@ func (s *KeyStore) decryptAndVerifyKeyRings(ringData []byte, cryptosuite *crypto.KeyStoreSuite) (rings []asn1.KeyRing, err error)
+//@   props C18
+//@   safety
+//@   ensures rejected-unverified: called(Notary.Verify) && ret(Notary.Verify)[1] != nil ==> err != nil && rings == nil && !called(KeyEncryptor.Decrypt)
+//@   ensures rejected-undecryptable: called(KeyEncryptor.Decrypt) && ret(KeyEncryptor.Decrypt)[1] != nil ==> err != nil && rings == nil && !called(asn1.UnmarshalEncryptedKeys)
+//@   ensures whole-or-nothing: err != nil ==> rings == nil
+//@   ensures rings-from-verified-payload: err == nil ==> called(asn1.UnmarshalEncryptedKeys) && sameslice(rings, ret(asn1.UnmarshalEncryptedKeys)[0].KeyRings)
+//@   at call Notary.Verify : assert recv == ret(signature.NewNotary)[0] && sameslice(arg[0], ringData) && sameslice(arg[1], exportKeyContext)
+//@   at call signature.NewNotary : assert sameslice(arg[0], cryptosuite.SignatureAlgorithms)
+//@   at call KeyEncryptor.Decrypt : assert recv == cryptosuite.KeyEncryptor && ret(Notary.Verify)[1] == nil && sameslice(arg[1], ret(Notary.Verify)[0].Payload.Data.Bytes) && ret(Notary.Verify)[0].Payload.ContentType == asn1.TypeEncryptedKeys && ret(Notary.Verify)[0].Payload.Version == asn1.KeyRingVersion2
+//@   at call asn1.UnmarshalEncryptedKeys : assert sameslice(arg[0], ret(KeyEncryptor.Decrypt)[0]) && ret(KeyEncryptor.Decrypt)[1] == nil
+//@   at call utils.ZeroizeBytes : assert exiting && sameslice(arg[0], ret(KeyEncryptor.Decrypt)[0])
+
+// Conflicts go through the delegate: an existing ring is replaced only on ImportOverwrite, left alone on ImportSkip,
+// any other decision aborts with the delegate's error; unexpected read errors abort before anything is imported.
+//@ func (s *KeyStore) importKeyRing(newRingData *asn1.KeyRing, delegate api.KeyRingImportDelegate) (err error)
+//@   props C18
+//@   noinline *
+//@   ensures skip-leaves-target: ret(KeyStore.readKeyRing)[0] == nil && ret(KeyRingImportDelegate.DecideKeyRingOverwrite)[0] == api.ImportSkip ==> err == nil && !called(KeyRing.importASN1)
+//@   ensures abort-leaves-target: ret(KeyStore.readKeyRing)[0] == nil && ret(KeyRingImportDelegate.DecideKeyRingOverwrite)[0] != api.ImportSkip && ret(KeyRingImportDelegate.DecideKeyRingOverwrite)[0] != api.ImportOverwrite ==> err == ret(KeyRingImportDelegate.DecideKeyRingOverwrite)[1] && !called(KeyRing.importASN1)
+//@   ensures overwrite-imports: ret(KeyStore.readKeyRing)[0] == nil && ret(KeyRingImportDelegate.DecideKeyRingOverwrite)[0] == api.ImportOverwrite ==> called(KeyRing.importASN1) && err == ret(KeyRing.importASN1)[0]
+//@   ensures unexpected-read-error-aborts: ret(KeyStore.readKeyRing)[0] != nil && ret(KeyStore.readKeyRing)[0] != backendAPI.ErrNotExist ==> err == ret(KeyStore.readKeyRing)[0] && !called(KeyRing.importASN1) && !called(KeyStore.openKeyRing)
+//@   ensures new-ring-imported: ret(KeyStore.readKeyRing)[0] == backendAPI.ErrNotExist && ret(KeyStore.openKeyRing)[0] == nil ==> called(KeyRing.importASN1) && err == ret(KeyRing.importASN1)[0]
+//@   at call KeyRing.importASN1 : assert arg[0] == newRingData
+//@   at call KeyRingImportDelegate.DecideKeyRingOverwrite : assert arg[1] == newRingData
+
+// Every imported key is re-encrypted by copyKey (under the target ring); the keys and the current marker are installed
+// by one transaction in the order of the bundle, and the transaction is dropped when the ring cannot be synced.
+//@ func (r *KeyRing) importASN1(ringData *asn1.KeyRing) (err error)
+//@   props C18
+//@   safety
+//@   noinline copyKey syncKeyRing
+//@   loop 0 invariant len(newKeys) == len(ringData.Keys)
+//@          invariant called(KeyRing.copyKey) ==> ret(KeyRing.copyKey)[1] == nil
+//@          invariant !called(KeyRing.pushTX) && !called(KeyStore.syncKeyRing)
+//@          step every-key-copied-in-order: itercalled(KeyRing.copyKey) && ret(KeyRing.copyKey)[1] == nil && argof(KeyRing.copyKey)[0] == &ringData.Keys[i]
+//@   ensures copy-failure-changes-nothing: called(KeyRing.copyKey) && ret(KeyRing.copyKey)[1] != nil ==> err == ret(KeyRing.copyKey)[1] && !called(KeyRing.pushTX) && !called(KeyStore.syncKeyRing)
+//@   ensures rolled-back-on-sync-failure: called(KeyStore.syncKeyRing) && ret(KeyStore.syncKeyRing)[0] != nil ==> err == ret(KeyStore.syncKeyRing)[0] && called(KeyRing.popTX)
+//@   ensures kept-on-success: err == nil ==> called(KeyRing.pushTX) && !called(KeyRing.popTX)
+//@   at call KeyRing.pushTX : assert typeis(arg[0], *txSetKeys) && unbox(arg[0], *txSetKeys).current == ringData.Current && sameslice(unbox(arg[0], *txSetKeys).newKeys, newKeys)
+//@   at call KeyStore.syncKeyRing : assert arg[0] == r && called(KeyRing.pushTX)
+
+// A copied key keeps everything but its data, and every data item goes through addKeyData (which encrypts, C07).
+//@ func (r *KeyRing) copyKey(other *asn1.Key) (key *asn1.Key, err error)
+//@   props C18 C07
+//@   safety
+//@   noinline addKeyData
+//@   ensures (err == nil) <==> (key != nil)
+//@   ensures same-identity: err == nil ==> key.Seqnum == other.Seqnum && key.State == other.State && fresh(key)
+//@   ensures rejects-empty: len(other.Data) == 0 ==> err != nil
+//@   loop 0 step data-through-addKeyData: itercalled(KeyRing.addKeyData) && ret(KeyRing.addKeyData)[0] == nil && argof(KeyRing.addKeyData)[1] == &key && sameslice(argof(KeyRing.addKeyData)[0].PrivateKey, otherKey.PrivateKey) && sameslice(argof(KeyRing.addKeyData)[0].SymmetricKey, otherKey.SymmetricKey) && sameslice(argof(KeyRing.addKeyData)[0].PublicKey, otherKey.PublicKey)
+
+// Export modes: without ExportPrivateKeys no private or symmetric material is left in the exported item.
+//@ func (r *KeyRing) decryptKeyData(data *asn1.KeyData, seqnum int, mode keystoreV1.ExportMode) (err error)
+//@   props C18
+//@   safety
+//@   noinline decryptPrivateKey decryptSymmetricKey
+//@   ensures public-only-strips-secrets: mode & keystoreV1.ExportPrivateKeys == 0 ==> data.PrivateKey == nil && data.SymmetricKey == nil && !called(KeyRing.decryptPrivateKey) && !called(KeyRing.decryptSymmetricKey)
+//@   ensures public-only-skips-symmetric: mode & keystoreV1.ExportPrivateKeys == 0 && len(old(data.PublicKey)) == 0 ==> err == ErrNoPublicData
+//@   ensures private-decrypted-with-own-seqnum: err == nil && called(KeyRing.decryptPrivateKey) ==> sameslice(data.PrivateKey, ret(KeyRing.decryptPrivateKey)[0])
+//@   ensures symmetric-decrypted-with-own-seqnum: err == nil && called(KeyRing.decryptSymmetricKey) ==> sameslice(data.SymmetricKey, ret(KeyRing.decryptSymmetricKey)[0])
+//@   ensures public-untouched: sameslice(data.PublicKey, old(data.PublicKey)) && data.Format == old(data.Format)
+//@   at call KeyRing.decryptPrivateKey : assert arg[0] == seqnum && sameslice(arg[1], old(data.PrivateKey))
+//@   at call KeyRing.decryptSymmetricKey : assert arg[0] == seqnum && sameslice(arg[1], old(data.SymmetricKey))
+
+//@ func (r *KeyRing) decryptAllKeyData(encrypted []asn1.KeyData, seqnum int, mode keystoreV1.ExportMode) (decrypted []asn1.KeyData, err error)
+//@   props C18
+//@   safety
+//@   noinline decryptKeyData zeroizeKeyData
+//@   ensures whole-or-nothing: err != nil ==> decrypted == nil
+//@   ensures same-count: err == nil ==> len(decrypted) == len(encrypted) && fresh(decrypted)
+//@   loop 0 step each-item-own-seqnum: itercalled(KeyRing.decryptKeyData) && argof(KeyRing.decryptKeyData)[1] == seqnum && argof(KeyRing.decryptKeyData)[2] == mode
+
+//@ func (r *KeyRing) exportASN1(mode keystoreV1.ExportMode) (exported asn1.KeyRing, err error)
+//@   props C18
+//@   safety
+//@   noinline decryptAllKeyData zeroizeKeyRing
+//@   ensures same-ring: err == nil ==> exported.Current == old(r.data.Current) && len(exported.Keys) == old(len(r.data.Keys))
+//@   loop 0 invariant exported.Current == old(r.data.Current) && len(exported.Keys) == old(len(r.data.Keys))
+//@          step each-key-own-seqnum: itercalled(KeyRing.decryptAllKeyData) && argof(KeyRing.decryptAllKeyData)[2] == mode
+
+//@ func (s *KeyStore) exportKeyRings(paths []string, mode keystoreV1.ExportMode) (rings []asn1.KeyRing, err error)
+//@   props C18
+//@   safety
+//@   noinline exportKeyRing zeroizeKeyRings
+//@   ensures whole-or-nothing: err != nil ==> rings == nil
+//@   loop 0 step each-selected-path-exported: itercalled(KeyStore.exportKeyRing) && argof(KeyStore.exportKeyRing)[1] == mode
+
+//@ func (s *KeyStore) ExportKeyRings(paths []string, cryptosuite *crypto.KeyStoreSuite, mode keystoreV1.ExportMode) (out []byte, err error)
+//@   props C18
+//@   safety
+//@   noinline *
+//@   ensures export-failure-yields-nothing: ret(KeyStore.exportKeyRings)[1] != nil ==> err == ret(KeyStore.exportKeyRings)[1] && out == nil && !called(KeyStore.encryptAndSignKeyRings)
+//@   ensures bundle-is-the-signed-ciphertext: ret(KeyStore.exportKeyRings)[1] == nil ==> sameslice(out, ret(KeyStore.encryptAndSignKeyRings)[0]) && err == ret(KeyStore.encryptAndSignKeyRings)[1]
+//@   at call KeyStore.exportKeyRings : assert sameslice(arg[0], paths) && arg[1] == mode
+//@   at call KeyStore.encryptAndSignKeyRings : assert sameslice(arg[0], ret(KeyStore.exportKeyRings)[0]) && arg[1] == cryptosuite
+//@   at call zeroizeKeyRings : assert exiting && sameslice(arg[0], ret(KeyStore.exportKeyRings)[0])
+
+// A bundle that does not verify or decrypt is rejected before any ring is touched; every ring of an accepted bundle is
+// handed to importKeyRing in bundle order with the caller's delegate (or the aborting default).
+//@ func (s *KeyStore) ImportKeyRings(exportData []byte, cryptosuite *crypto.KeyStoreSuite, delegate api.KeyRingImportDelegate) (ids []string, err error)
+//@   props C18
+//@   safety
+//@   noinline *
+//@   opt maybenil delegate
+//@   ensures rejected-without-change: ret(KeyStore.decryptAndVerifyKeyRings)[1] != nil ==> err == ret(KeyStore.decryptAndVerifyKeyRings)[1] && ids == nil && !called(KeyStore.importKeyRing)
+//@   ensures whole-or-nothing-result: err != nil ==> ids == nil
+//@   ensures one-id-per-ring: err == nil ==> len(ids) == len(ret(KeyStore.decryptAndVerifyKeyRings)[0])
+//@   loop 0 invariant called(KeyStore.importKeyRing) ==> ret(KeyStore.importKeyRing)[0] == nil
+//@          step every-ring-imported-in-order: itercalled(KeyStore.importKeyRing) && ret(KeyStore.importKeyRing)[0] == nil && argof(KeyStore.importKeyRing)[0] == &keyRings[i]
+//@   at call KeyStore.decryptAndVerifyKeyRings : assert sameslice(arg[0], exportData) && arg[1] == cryptosuite
+//@   at call KeyStore.importKeyRing : assert (delegate != nil ==> arg[1] == delegate) && (delegate == nil ==> typeis(arg[1], *defaultImportDelegate))
+//@   at call zeroizeKeyRings : assert exiting
+
+//@ func (d *defaultImportDelegate) DecideKeyRingOverwrite(currentData *asn1.KeyRing, newData *asn1.KeyRing) (decision api.ImportDecision, err error)
+//@   props C18
+//@   safety
+//@   ensures never-overwrites-silently: decision == api.ImportAbort && err == ErrKeyRingExists
